@@ -300,6 +300,17 @@ if __name__ == "__main__":
         h, b = current(with_binders=True)
         json.dump(h, open(BASE, "w"), indent=0, sort_keys=True)
         json.dump(b, open(BINDERS, "w"), indent=0, sort_keys=True)
+        # functions that contain a cfg(feature = ...) site (C16's strict drift map)
+        cfg = set()
+        for d, _, fs in os.walk(os.path.join(REPO, "src")):
+            for f in sorted(fs):
+                if f.endswith(".rs") and f != "verif_probe.rs":
+                    rel = os.path.relpath(os.path.join(d, f), REPO)
+                    code, _ns = mask(open(os.path.join(d, f), errors="replace").read())
+                    for key, a0, b0 in spans(code):
+                        if re.search(r"cfg\(\s*(not\(\s*)?feature", code[a0:b0]):
+                            cfg.add("%s::%s" % (rel, key.split("#")[0]))
+        json.dump(sorted(cfg), open(os.path.join(ROOT, "tools", "cfg_fns.json"), "w"), indent=0)
         print("pinned", len(h), "functions")
     else:
         json.dump(diff(), sys.stdout, indent=1)
